@@ -258,3 +258,68 @@ func callerIndex(c *core.Ctx) map[*ssa.Function][]*ssa.Function {
 	callerIdx[c.P] = idx
 	return idx
 }
+
+// nilArgPath: the path is the one taken when a pointer argument of fn is nil (`if event == nil {
+// return … }` at the door): there is no event / message / filter on it, so a property about events,
+// messages or filters says nothing about it.
+func nilArgPath(fn *ssa.Function, conds []an.Cond) bool {
+	for _, cd := range conds {
+		cd = an.NormCond(cd)
+		b, ok := cd.V.(*ssa.BinOp)
+		if !ok || (b.Op != token.EQL && b.Op != token.NEQ) || (b.Op == token.EQL) != cd.True {
+			continue
+		}
+		x, y := b.X, b.Y
+		if an.IsNilConst(x) {
+			x, y = y, x
+		}
+		if !an.IsNilConst(y) {
+			continue
+		}
+		par, ok := x.(*ssa.Parameter)
+		if !ok || par.Parent() != fn {
+			continue
+		}
+		if fn.Signature.Recv() != nil && len(fn.Params) > 0 && fn.Params[0] == par {
+			continue
+		}
+		if _, isPtr := par.Type().Underlying().(*types.Pointer); isPtr {
+			return true
+		}
+	}
+	return false
+}
+
+// invalidMsgGuarded: block b of fn is reached only when the message at msgPath failed its own
+// Valid() (`if !msg.Valid() { return reject }`).
+func invalidMsgGuarded(fn *ssa.Function, b *ssa.BasicBlock, msgPath string) bool {
+	for _, g := range an.Guards(fn, b) {
+		call, ok := g.V.(*ssa.Call)
+		if !ok || g.True {
+			continue
+		}
+		sc := an.StaticCallee(&call.Call)
+		if sc == nil || sc.Name() != "Valid" || sc.Signature.Recv() == nil || len(call.Call.Args) != 1 {
+			continue
+		}
+		if an.PathOf(call.Call.Args[0]) == msgPath {
+			return true
+		}
+	}
+	return false
+}
+
+// nilEventCond: the condition holds exactly when the Event field of a message is nil
+// (`msg.Event == nil` taken true / `msg.Event != nil` taken false): there is no event on that path.
+func nilEventCond(cd an.Cond) bool {
+	cd = an.NormCond(cd)
+	b, ok := cd.V.(*ssa.BinOp)
+	if !ok || (b.Op != token.EQL && b.Op != token.NEQ) || (b.Op == token.EQL) != cd.True {
+		return false
+	}
+	x, y := b.X, b.Y
+	if an.IsNilConst(x) {
+		x, y = y, x
+	}
+	return an.IsNilConst(y) && typeNameOf(x.Type()) == "Event" && strings.HasSuffix(an.PathOf(x), ".Event")
+}
